@@ -11,10 +11,11 @@ import (
 )
 
 // replay: re-decide one recorded obligation against the CURRENT tree.
-//   1. the saved SMT query (the verification condition as generated when the violation was reported) is re-run on
-//      every installed solver, so the recorded verdict and counterexample model can be inspected again;
-//   2. the obligation's function is re-verified from /repo's current source; exit 1 with a VIOLATION line if the
-//      obligation still fails, exit 0 if it is discharged now.
+//  1. the saved SMT query (the verification condition as generated when the violation was reported) is re-run on
+//     every installed solver, so the recorded verdict and counterexample model can be inspected again;
+//  2. the obligation's function is re-verified from /repo's current source; exit 1 with a VIOLATION line if the
+//     obligation still fails, exit 0 if it is discharged now.
+//
 // Counterexamples that were turned into executable Go tests live in /verif/findings/*/zz_replay_test.go (run with
 // go test -overlay, see the README next to each).
 func mainReplay(args []string) int {
